@@ -40,6 +40,8 @@ func newWorld(kind string, first []string) world {
 		return newEVWorld(ty)
 	case "wg":
 		return &wgWorld{}
+	case "dv":
+		return &dvWorld{}
 	}
 
 	return nil
@@ -526,13 +528,16 @@ func main() {
 		{"ev new u64", "ev event 18446744073709551615", "ev event 1048576", "ev evict 1048576", "ev event 1048576", "ev event 18446744073709551615", "ev evict 1048577"},
 		{"ev new f64", "ev event 4097", "ev evict 4096", "ev event 4096", "ev evict 4097", "ev event 9007199254740992"},
 		{"ev new f32", "ev event 16777216", "ev event 70000", "ev evict 65536", "ev evict 70000"},
+		// DerivedVariable: inputs that hold values already, initial value, Unsubscribe twice, DeriveValueFrom and its teardown
+		{"dv new lin 7 1,0,4096", "dv set 1 5", "dv derive", "dv set 2 -65537", "dv set 0 1", "dv unsub", "dv set 1 9", "dv unsub", "dv teardown", "dv set 0 3"},
+		{"dv new firstnz -3 0", "dv derive", "dv set 0 0", "dv set 0 1099511627776", "dv teardown", "dv set 0 2"},
 		// concurrent EvictionEvent callers per fresh slot must share one event (GetOrCreate must re-check under its lock)
 		{"stress evictsame 4000 8 1"},
 	}
 	for _, c := range corpus {
 		runCase(r, 0, c)
 	}
-	gens := []func(*hx.Rng, int) []string{genDS, genDS, genSR, genCT, genSS, genSS, genEV, genWG}
+	gens := []func(*hx.Rng, int) []string{genDS, genDS, genSR, genCT, genSS, genSS, genEV, genWG, genEV, genDV}
 	nseq := 3200 * r.Scale
 	for i := 0; i < nseq; i++ {
 		rng, sub := r.Rng.Fork()
